@@ -55,11 +55,12 @@ def obs_tuple(o):
     return (comps, o['done'], o['stop'], o['pmq'], o['finq'], o['running'], v, o['cur'] + 1)
 
 
-def explore(W, outcome, chooser, maxlen=400):
+def explore(W, outcome, chooser, maxlen=400, slow_pm=False):
     """Runs one schedule to completion. chooser(enabled_events, step) -> index. Returns
     (trace [(event, obs_before, obs_after)], driver_errors, complete?)"""
     import sched_driver as S
     d = S.Driver(W, outcome)
+    d.slow_pm = slow_pm
     trace = []
     pre = d.observe()
     step = 0
@@ -76,6 +77,13 @@ def explore(W, outcome, chooser, maxlen=400):
         try:
             if ev[0] == 'Start':
                 d.start_stage()
+            elif ev[0] == 'PMB':
+                # a post-mortem that parks inside its stability wait changes nothing observable yet: for the model the
+                # whole post-mortem happens when it is released (PME -> PM); one that completes at once is a plain PM
+                if d.do(ev) == 'done':
+                    ev = ('PM', ev[1])
+                else:
+                    ev = ('PMB', ev[1])
             else:
                 d.do(ev)
         except RuntimeError as exc:
@@ -117,6 +125,11 @@ def coq_case(W, outcome, trace, fixed=True):
     tbl = clist([clist(outcome[c]) for c in range(len(W))])
     items = []
     for (ev, pre, post) in trace:
+        if ev[0] == 'PMB':
+            continue               # nothing happens in the model until the post-mortem is released
+        if ev[0] == 'PME':
+            items.append('(PM %s, Some %s)' % (cnat(ev[1]), coq_obs(post)))
+            continue
         if ev[0] == 'Start':   # initialise + first _schedule, then the first loop iteration before the first wait
             items.append('(Start, None)')
             items.append('(Tick, Some %s)' % coq_obs(post))
